@@ -164,7 +164,7 @@ def main():
                 chk.ok(oid, 'c_n(mu, gamma) = gamma^-3 [(1-mu)/(|a1| a1^n) + mu/(|a2| a2^n)] for n = 2..%d with the primaries at local x = a1 = %r, a2 = %r' % (N, a1, a2),
                        sample={'point': pname, 'a_large': repr(a1), 'a_small': repr(a2)})
             else:
-                chk.fail(oid, 'c_%d differs from the coefficient of the potential expansion' % bad[0], None)
+                chk.fail(oid, 'c_%d differs from the coefficient of the potential expansion' % bad[0], _replay_cn(pname), None)
         # ---- (3) the exact local Hamiltonian and the coordinate map (collinear)
         for pname, cls in (('L1', lib._L1DynamicsService), ('L2', lib._L2DynamicsService), ('L3', lib._L3DynamicsService)):
             svc = fake_service(cls, gamma=gam, mu=mu)
@@ -292,6 +292,23 @@ def main():
     chk.note('%d generic decisions; total %.1f s' % (st['generic_nonzero_notes'], time.time() - t0))
     snp.EXACT_SQRT[0] = False
     return chk.finish()
+
+
+def _replay_cn(pname):
+    return '''
+from hiten.system import System
+from hiten.algorithms.hamiltonian.transforms import _synodic2local_collinear
+bad = []
+for mu in (0.0121505856, 0.2, 0.5):
+    s = System.from_mu(mu); p = s.get_libration_point(%d)
+    g = p.dynamics.gamma
+    a1 = _synodic2local_collinear(p, np.array([-mu, 0, 0, 0, 0, 0.0]))[0]
+    a2 = _synodic2local_collinear(p, np.array([1 - mu, 0, 0, 0, 0, 0.0]))[0]
+    for n in range(2, 9):
+        geo = ((1 - mu) / (abs(a1) * a1 ** n) + mu / (abs(a2) * a2 ** n)) / g ** 3
+        if abs(p.dynamics.cn(n) - geo) > 1e-9 * max(1.0, abs(geo)): bad.append((mu, n, float(p.dynamics.cn(n)), float(geo)))
+_verdict(bool(bad), mismatches=bad[:3])
+''' % int(pname[1])
 
 
 def _replay_lin(pname):
